@@ -21,6 +21,10 @@ checks = [
   "bounded-exhaustive enumeration of structure trees x finite float patterns on the real WKT encoder vs an independent recursive-descent OGC WKT parser",
   "Every tree of the five types (1..3 members, 1..3 vertices) with every rotation of 19 finite float64 patterns, incl. repeated vertices, is encoded and the text parsed by an independent parser of the OGC grammar to a bit-identical geometry; unsupported types must be rejected.",
   "Trusts the 150-line parser in checks/c17 and strconv.ParseFloat.", "4/C17"),
+ ("C07", "fault_enumeration", "E4",
+  "exhaustive single-fault enumeration (every prefix, bit flip, count/type/order substitution, nesting depth; JSON value grammar) over all valid encodings of a bounded corpus, executed in isolated single-goroutine workers with exact allocation accounting",
+  "Every single fault of the listed kinds applied to every valid WKB/hex/GeoJSON encoding of the bounded structure-tree corpus, plus all byte strings of length <= 2, all headers, inflated nine-byte messages, deep nestings and a bounded JSON value grammar, is decoded by the real code; no panic, geometry xor error, allocation <= 256*len+64KiB measured exactly, success implies a re-encode/decode fixed point. Complete for single faults over the corpus; multi-fault and unrelated inputs are outside.",
+  "Trusts runtime.MemStats.TotalAlloc deltas in a GOMAXPROCS=1 worker; a worker that dies or is silent for 90 s is attributed to the announced case.", "4/C07"),
  ("C11", MC, "E2",
   "explicit-state BFS over the real R-tree (deep clone per transition, canonical-state dedup) with structural invariants and brute-force SearchIntersect oracle in every state",
   "All insert/delete histories over a 6-8 object alphabet are explored to closure of the reachable state space for branching (2,4) and (2,5) (depth-bounded for (3,6)); neighbourhoods of height-3 seed trees to depth 5; every distinct state is checked against a multiset model with 104 query boxes and the balance/envelope/fan-out invariants read through an injected read-only walk.",
